@@ -68,7 +68,10 @@ EvalNode(s, c, tolS) ==
   ELSE IF c \in s.wip \/ c \in s.computed THEN s
   ELSE LET s0 == [s EXCEPT !.wip = @ \cup {c}, !.prev[c] = s.val[c]]
            s1 == EvalSeqI(s0, NeededSeq(c), tolS)
-           v  == Result(Apply(c, [p \in PrecMap[c] |-> ReadVal(s1, p)]))
+           \* (an unbounded range which resolves to one cell is that cell's
+           \* value as it is, blank included: no formula result)
+           a  == Apply(c, [p \in PrecMap[c] |-> ReadVal(s1, p)])
+           v  == IF c \in Aliases THEN a ELSE Result(a)
        IN  [s1 EXCEPT !.val[c] = v,
                       !.wip = @ \ {c},
                       !.computed = @ \cup {c},
